@@ -140,11 +140,6 @@ def check_state(X, G, mats, maxcor, expectX, eps=EPS):
             return out
     if not pairs:
         return out
-    if mats.S.shape != (n, len(pairs)) or not np.array_equal(
-            mats.S, np.array([p[0] for p in pairs]).T) or not np.array_equal(
-            mats.Y, np.array([p[1] for p in pairs]).T):
-        out.append(("S_Y_not_the_stored_differences", {}))
-        return out
     B, theta = refs.dense_B(pairs, n)
     Bc = compact_B(mats, n)
     if not np.all(np.isfinite(Bc)):
